@@ -24,7 +24,7 @@ ASSUMPTIONS = ["members added to a class after decoration and C-implemented desc
 COS = [(True, False), (False, True), (True, True)]
 NAMES = ["pub", "_prot", "__priv", "__len__", "__call__", "__eq__", "__getattr__", "__repr__", "__str__", "prop", "_prot_prop",
          "static", "classm", "wo_prop", "__unm", "__setattr__"]
-KIND = {"static0": "staticmethod", "classm0": "classmethod", "apub": "function", "__unm": "function", "pub": "function", "other_pub": "function", "_prot": "function", "__priv": "function", "__len__": "function",
+KIND = {"alias_pub": "function", "__radd__": "function", "static0": "staticmethod", "classm0": "classmethod", "apub": "function", "__unm": "function", "pub": "function", "other_pub": "function", "_prot": "function", "__priv": "function", "__len__": "function",
         "__call__": "function", "__eq__": "function", "__getattr__": "function", "__repr__": "function", "__str__": "function",
         "prop": "property", "_prot_prop": "property", "wo_prop": "property", "ro_prop": "property", "ro_prop_setter": "property", "static": "staticmethod", "classm": "classmethod", "__setattr__": "function"}
 REALNAME = {"__priv": "_L0__priv"}
@@ -38,7 +38,7 @@ def sel_cases():
                     for with_setattr in (False, True):
                         names = [n for n in NAMES if with_setattr or n != "__setattr__"]
                         if split == 0:
-                            levels = [{"mode": mode, "members": names + ["ro_prop", "static0", "classm0", "apub"], "invs": [list(a)] + ([list(b)] if b else []), "init": True}]
+                            levels = [{"mode": mode, "members": names + ["ro_prop", "static0", "classm0", "apub", "alias_pub", "__radd__"], "invs": [list(a)] + ([list(b)] if b else []), "init": True}]
                         else:
                             cut = 7
                             levels = [{"mode": mode, "members": names[:cut] + ["ro_prop", "static0", "classm0", "apub"], "invs": [list(a)], "init": True},
@@ -60,6 +60,11 @@ def sel_cases():
                         members = [{"name": n, "kind": KIND[n]} for lv in levels for n in lv["members"]]
                         yield {"dom": "select", "levels": levels, "invs": [{"call": c, "setattr": s} for c, s in invs],
                                "members": members}
+                        if split == 4 and not with_setattr:
+                            for bb in ("list", "dict", "Exception"):
+                                # built-in bases without a Python-level constructor anywhere
+                                yield {"dom": "select", "levels": levels, "invs": [{"call": c, "setattr": s} for c, s in invs],
+                                       "members": members, "builtin_base": bb}
 
 
 def cases(tier, rng):
@@ -161,7 +166,7 @@ def spec(case, mo, io):
         if n in ("prop_set", "wo_prop", "ro_prop_setter") and setattr_guarded:
             exp = sa + sa
         elif n in ("pub", "other_pub", "__len__", "__call__", "__eq__", "__getattr__", "__str__", "prop", "prop_set", "wo_prop",
-                   "ro_prop", "ro_prop_setter", "apub"):
+                   "ro_prop", "ro_prop_setter", "apub", "alias_pub", "__radd__"):
             exp = (call + call) if _processed(case, src) else None
         elif n == "__setattr__":
             exp = (sa + sa) if _processed(case, n) else None
